@@ -52,4 +52,5 @@ type Convergen interface {
 	To42(*Src) *Dst42
 	To43(*Src) *Dst43
 	To44(*Src) *Dst44
+	To45(*Src) *Dst45
 }
